@@ -214,6 +214,34 @@ theorem flat_result_between (fs : Bool) (fuel : Nat) (s : Nat) (b e x1 y1 : Int)
   elevations_stay_in_range fs fuel (flat s b) m' e x1 y1 x2 y2 (min b e) (max b e)
     (fun k t ht => by rw [flat_elev s b k t ht]; omega) (by omega) (by omega) h
 
+/-- **setElevation_eq_pyramid_level**: the unproved equation `operational = closed form` holds in full when the
+requested elevation is the base elevation - for every argument list with which the call returns, pinned and repaired
+code: nothing moves, and the closed form is flat as well -/
+theorem setElevation_eq_pyramid_level (fs : Bool) (fuel : Nat) (s : Nat) (b x1 y1 : Int) (x2 y2 : Option Int)
+    (rx1 ry1 rx2 ry2 : Int) (m' : Map)
+    (h : setElevation fs fuel (flat s b) b x1 y1 x2 y2 = .ok m') :
+    m'.tiles.map (·.elevation) = pyramid s b b rx1 ry1 rx2 ry2 := by
+  have hwf : WF (flat s b) := wf_resetIndices s _ (by simp)
+  have hlen : m'.tiles.length = s * s := by
+    rw [(only_elevations_change _ _ _ _ _ _ _ _ _ hwf h).2.2.1]; simp [flat, resetIndices]
+  have hb := flat_result_between fs fuel s b b x1 y1 x2 y2 m' h
+  apply List.ext_getElem?
+  intro k
+  by_cases hk : k < s * s
+  · have hk' : k < m'.tiles.length := by omega
+    have hp := pyramid_between b b rx1 ry1 rx2 ry2 ((k % s : Nat) : Int) ((k / s : Nat) : Int)
+    have ht := hb k m'.tiles[k] (List.getElem?_eq_getElem hk')
+    simp only [pyramid, List.getElem?_map, List.getElem?_range hk, List.getElem?_eq_getElem hk', Option.map_some]
+    congr 1
+    omega
+  · simp only [pyramid, List.getElem?_map]
+    rw [List.getElem?_eq_none (by omega), List.getElem?_eq_none (by simp; omega)]
+    rfl
+
+/-- non-vacuity of `setElevation_eq_pyramid_level`: the call returns on a flat 3×3 map of elevation 2 -/
+example : ((setElevation true (elevFuel (flat 3 2)) (flat 3 2) 2 0 0 (some 1) (some 1)).map
+    (fun m => m.tiles.map (·.elevation))) = .ok (pyramid 3 2 2 0 0 1 1) := by decide +kernel
+
 /-- non-vacuity: a non-flat 3×3 map within `[0, 4]`, raised to 3 at its centre (repaired code), returns normally -/
 example : ((setElevation true 10
     { size := 3, tiles := resetIndices ([0,4,0, 1,0,2, 4,0,0].map (fun e => { Tile.fresh with elevation := e })) }
